@@ -1,6 +1,6 @@
 #!/bin/sh
 # usage: tools/runall.sh [tier] [seeds...]   - runs every registered check; prints one line per run
-tier=${1:-quick}; shift
+tier=${1:-quick}; shift || true
 seeds=${@:-0}
 cd "$(dirname "$0")/.."
 for sd in $seeds; do
